@@ -84,8 +84,16 @@ def rDef : Definition → String
 
 def rDoc (d : Document) : String := s!"doc({rList rDef d.defs}{rLoc d.loc})"
 
+/-- `{"tokens":[…tokens that lexed…], "lazy":true}`: the text has a malformed lexeme after these tokens -/
+def handleLazy (toks : List Token) : Json :=
+  match Parser.parseLazy toks with
+  | .lexError => Json.mkObj [("lazy", Json.mkObj [("kind", Json.str "lex"), ("pos", Json.null)])]
+  | .syntax p => Json.mkObj [("lazy", Json.mkObj [("kind", Json.str "syntax"), ("pos", Json.num p)])]
+  | .fuel => Json.mkObj [("lazy", Json.mkObj [("kind", Json.str "fuel"), ("pos", Json.null)])]
+
 def handle (j : Json) : Except String Json := do
   let toks ← (← Driver.getArr j "tokens").toList.mapM decToken
+  if (Driver.getOpt j "lazy").isSome then return handleLazy toks
   let goAst : Option Document ← match Driver.getOpt j "goAst" with
     | none => pure none
     | some a => do pure (some (← Driver.AstJson.decDocument a))
@@ -105,11 +113,11 @@ def handle (j : Json) : Except String Json := do
       ("S", s), ("kf", Json.arr kf.toArray)]
   | .error e =>
     let (pos, fuel) : Json × Bool := match e with
-      | .syntax p _ => (Json.num p, false)
+      | .syntax p _ _ => (Json.num p, false)
       | .fuel => (Json.null, true)
       | .noEOF => (Json.null, false)
     let kf : List Json := match e with
-      | .syntax _ true => [Json.str "typeRefMalformed"]
+      | .syntax _ true _ => [Json.str "typeRefMalformed"]
       | _ => []
     return Json.mkObj [("M", Json.mkObj [("ok", Json.bool false), ("errPos", pos), ("fuel", Json.bool fuel), ("astEq", Json.null),
         ("noEOF", Json.bool (decide (e = .noEOF)))]),
